@@ -1,5 +1,5 @@
 (** C01 - Every task gets exactly one terminal outcome, reported once, in order. *)
-From HQ Require Import Base.Prelude Cluster.Types Cluster.Core Cluster.Reactor Cluster.Worker Cluster.Server Cluster.Sys Cluster.Monitors Cluster.ProofsJob Cluster.ProofsCore Cluster.ProofsMore Cluster.ProofsTerminal Cluster.ProofsStep Cluster.ProofsFinal.
+From HQ Require Import Base.Prelude Cluster.Types Cluster.Core Cluster.Reactor Cluster.Worker Cluster.Server Cluster.Sys Cluster.Monitors Cluster.ProofsJob Cluster.ProofsCore Cluster.ProofsMore Cluster.ProofsTerminal Cluster.ProofsStep Cluster.ProofsFinal Cluster.BijBase Cluster.ProofsOnce.
 From Coq Require Import ZArith.
 Local Open Scope N_scope.
 
@@ -51,6 +51,23 @@ Theorem C01_forget_only_terminated : forall s jid s',
   exists j, find_job (hq_jobs s) jid = Some j /\ j_open j = false /\ cnt (j_tasks j) JW = 0 /\ cnt (j_tasks j) JR = 0.
 Proof. exact forget_only_terminated. Qed.
 
+(** "Reported once": in the events emitted along ANY history of the system model, every task is
+    named by at most one terminal event (finished / failed / canceled / aborted), and a task that
+    got one has a terminal outcome in the job layer - or its job has been forgotten. *)
+Theorem C01_terminal_event_once : forall ops reserve maxfill s outs t,
+  run (init_sys reserve maxfill) ops = Ok (s, outs) ->
+  (count_occ tid_dec (terminal_ids outs) t <= 1)%nat /\
+  (count_occ tid_dec (terminal_ids outs) t = 1%nat ->
+     (exists v, task_state (s, []) t = Some v /\ terminal v) \/ find_job (h_jobs (s_hq s)) (fst t) = None).
+Proof. exact terminal_event_once. Qed.
+
+(** A history in which a task finishes: the premise is satisfiable with a non-empty event stream. *)
+Theorem C01_terminal_event_example : exists s outs, run (init_sys 0 2) once_ops = Ok (s, outs)
+  /\ terminal_ids outs = [(1, 0)] /\ task_state (s, []) (1, 0) = Some JF.
+Proof. exact once_example. Qed.
+
+Print Assumptions C01_terminal_event_once.
+Print Assumptions C01_terminal_event_example.
 Print Assumptions C01_outcome_final_system.
 Print Assumptions C01_outcome_final.
 Print Assumptions C01_forget_only_terminated.
